@@ -172,6 +172,17 @@ theorem C17_junk_payload (s : Server) (src : Nat) (k : Junk) :
   simp only [Server.receive]
   cases s.canAct <;> simp
 
+/-- **The co-located client's own calls** (a database client installed on the database host, addressing its own host) never
+change anything: they fail - or, in the one configuration in which the service owns port 5432 again (after a re-install),
+can act, and the client is RUNNING, the real call does not return (the service answers its own answers; explicit outcome
+`raised`, a totality defect outside C17's statement, reported in the design note). -/
+theorem C17_colocated_client_no_effect (st : State) (k : Nat) :
+    (step st (.co k)).1 = st ∧
+    ((step st (.co k)).2.raised = true →
+      st.srv.coClient = true ∧ st.srv.coApp = .running ∧ st.srv.listening = true ∧ st.srv.canAct = true) := by
+  simp only [step]
+  (repeat' split) <;> simp_all
+
 /-! ## 3. Re-installing the database service at run time -/
 
 /-- **Re-install.**  `software_manager.install(DatabaseService[, config])` at run time either changes nothing (refused
